@@ -39,6 +39,10 @@ def run(ctx):
             pool = core + rng.sample(pool, 10)
         for s in pool:
             cells.append((mn, s, zlib.crc32((mn + "|" + ",".join(s)).encode()) % 6))    # operand variant: a function of the cell, so quick cells are a subset of thorough
+    for mn in ("JMP", "CALL"):      # far pointers: numeric offset, label offset, undefined name as offset (both keyword forms)
+        for kind in ("farj_num", "farj_lab", "farj_undef"):
+            for v in (0, 1):
+                cells.append((mn, [kind], v))
     for mn, s, v in cells:
         R.add(matrix.program(matrix.statement(mn, s, v)))
     if not quick:
